@@ -85,6 +85,7 @@ func (t *Target) BuildRedirectURL(requestURL *url.URL) {
 	if strings.HasSuffix(t.RedirectURL.Host, "$path") {
 		t.RedirectURL.Host = t.RedirectURL.Host[:len(t.RedirectURL.Host)-len("$path")]
 		t.RedirectURL.Path = "$path"
+		t.RedirectURL.RawPath = "$path"
 	}
 	// remove / before $path in redirect url
 	if strings.Contains(t.RedirectURL.Path, "/$path") {
